@@ -3,6 +3,9 @@ package main
 import (
 	"bytes"
 	"context"
+	"encoding/json"
+	"fmt"
+	"os"
 	"os/exec"
 	"time"
 )
@@ -24,4 +27,42 @@ func tryReplay(id string, def *PropDef, o *Obl, path string) bool {
 	return false
 }
 
-func cmdReplay(args []string) int { return 2 }
+// cmdReplay re-examines a recorded violation: it prints the obligation, where it comes from and what the solvers said,
+// and runs the stored query again. Exit 1 when the obligation is still not discharged (the recorded failure stands),
+// 0 when it is discharged now, 2 when the record cannot be read. No input for the real code is produced (the failed goals
+// are quantified; the solvers answer unknown or timeout, not sat).
+func cmdReplay(args []string) int {
+	if len(args) != 1 {
+		fmt.Fprintln(os.Stderr, "usage: govc replay <replays/<id>/<hash>.json>")
+		return 2
+	}
+	data, err := os.ReadFile(args[0])
+	if err != nil {
+		fmt.Fprintln(os.Stderr, err)
+		return 2
+	}
+	var rec map[string]any
+	if err := json.Unmarshal(data, &rec); err != nil {
+		fmt.Fprintln(os.Stderr, err)
+		return 2
+	}
+	fmt.Printf("property   %v\nobligation %v\nposition   %v\nrecorded   result=%v backend=%v\n", rec["property"], rec["obligation"], rec["position"], rec["result"], rec["backend"])
+	q, _ := rec["query_file"].(string)
+	if q == "" {
+		return 1
+	}
+	if _, err := os.Stat(q); err != nil {
+		fmt.Println("query file missing:", q)
+		return 1
+	}
+	best, tried := discharge(q, 20, 60, false)
+	for _, t := range tried {
+		fmt.Printf("  %-14s %-8s %.1fs\n", t.solver, t.result, t.secs)
+	}
+	if best.result == "unsat" {
+		fmt.Println("the stored query is discharged now: the recorded failure does not reproduce")
+		return 0
+	}
+	fmt.Println("the stored query is still not discharged: no-failing-input-found")
+	return 1
+}
